@@ -14,7 +14,7 @@ RULE = ("Hypothesis-generated (scenario, schedule) cases with lazy_stepping=True
         "than that time (mapped by the reference delay without shift/weak). Metamorphic control: the same case is "
         "re-run with lazy_stepping=False and must run ahead in a measured share of cases. non-trivial = the "
         "control run (lazy off) of the same case does run ahead; distinct = distinct case hashes"
-        "; in addition four long runs (until 80 / 120 / 1100) under FIFO, LIFO and a starved simulator, and the "
+        "; in addition six long runs (until 80 / 120 / 1100, strides of hundreds, 24 simulators) under FIFO, LIFO and a starved simulator, and the "
         "extreme policies (LIFO, steps first, get_data first, each simulator starved) before every schedule enumeration")
 ASSUMPTIONS = [
     "'outstanding' = demanded according to replies observed so far",
